@@ -251,9 +251,12 @@ theorem iApp_sync (pi0 pt0 : List Bytes) : ∀ (rem : List Bytes) (a : Air TStat
     pniI < 4 → PData c pniI [] g ts a.peer → pi0 = g ++ rem → pt0 = gotI ++ ts →
     (iApp (targetPeer c) c fuel rem a pniI gotI).1.peer.got <+: pi0
     ∧ (iApp (targetPeer c) c fuel rem a pniI gotI).2.1 <+: pt0
+    ∧ ((iApp (targetPeer c) c fuel rem a pniI gotI).2.2 = none →
+        (iApp (targetPeer c) c fuel rem a pniI gotI).1.peer.got = pi0
+        ∧ (iApp (targetPeer c) c fuel rem a pniI gotI).2.1.length = gotI.length + rem.length)
   | [], a, pniI, gotI, g, ts, _, hA, h1, h2 => by
     unfold iApp
-    exact ⟨by rw [hA.2.1, h1]; simp, by rw [h2]; simp⟩
+    exact ⟨by rw [hA.2.1, h1]; simp, by rw [h2]; simp, fun _ => ⟨by rw [hA.2.1, h1]; simp, by simp⟩⟩
   | p :: ps, a, pniI, gotI, g, ts, hlt, hA, h1, h2 => by
     unfold iApp
     have hx := exchange_sync c hdid fuel a pniI p g ts hlt hA
@@ -261,7 +264,7 @@ theorem iApp_sync (pi0 pt0 : List Bytes) : ∀ (rem : List Bytes) (a : Air TStat
     obtain ⟨a', pni', u⟩ := r
     cases u with
     | error e =>
-      refine ⟨?_, by rw [h2]; simp⟩
+      refine ⟨?_, by rw [h2]; simp, fun h => by cases h⟩
       rcases hx.1 e rfl with h | h
       · show a'.peer.got <+: pi0
         rw [h, h1]; simp
@@ -269,8 +272,11 @@ theorem iApp_sync (pi0 pt0 : List Bytes) : ∀ (rem : List Bytes) (a : Air TStat
         rw [h, h1]; exact ⟨ps, by simp⟩
     | ok out =>
       obtain ⟨ts', hts, hlt', hA'⟩ := hx.2 out rfl
-      exact iApp_sync pi0 pt0 ps a' pni' (gotI ++ [out]) (g ++ [p]) ts' hlt' hA'
+      have ih := iApp_sync pi0 pt0 ps a' pni' (gotI ++ [out]) (g ++ [p]) ts' hlt' hA'
         (by rw [h1]; simp) (by rw [h2, hts]; simp)
+      refine ⟨ih.1, ih.2.1, fun h => ?_⟩
+      have := ih.2.2 h
+      exact ⟨this.1, by rw [this.2]; simp; omega⟩
 
 omit hdid in
 theorem tRx_dsl_got (t : TState) (rel : Bool) (did : Option Nat) :
@@ -311,7 +317,133 @@ theorem run_exactly_once (script : List Fault) (rel : Nat) (pi pt : List Bytes) 
   obtain ⟨a1, got, err⟩ := r
   dsimp only at h ⊢
   split
+  · exact ⟨h.1, h.2.1⟩
+  · exact ⟨by rw [deactivate_got]; exact h.1, h.2.1⟩
+
+/-- a run without error delivered everything, both ways -/
+theorem run_complete (script : List Fault) (rel : Nat) (pi pt : List Bytes)
+    (hok : (run c fuel script rel pi pt).errI = none) :
+    (run c fuel script rel pi pt).t.got = pi ∧ (run c fuel script rel pi pt).gotI = pt.take pi.length := by
+  have h0 : PData c 0 [] [] pt (TState.init pt) :=
+    ⟨rfl, rfl, rfl, Or.inl ⟨rfl, Or.inl rfl, rfl, rfl⟩⟩
+  have h := iApp_sync c hdid fuel pi pt pi
+    { script := script, peer := TState.init pt, expired := false, wire := [] } 0 [] [] pt (by decide) h0 rfl rfl
+  unfold run at hok ⊢
+  dsimp only at hok ⊢
+  generalize iApp (targetPeer c) c fuel pi _ 0 [] = r at h hok ⊢
+  obtain ⟨a1, got, err⟩ := r
+  dsimp only at h hok ⊢
+  have hc := h.2.2 hok
+  have hg : got = pt.take pi.length := by
+    obtain ⟨rest, hr⟩ := h.2.1
+    have hl : got.length = pi.length := by simpa using hc.2
+    rw [← hr, ← hl]; simp
+  split
+  · exact ⟨hc.1, hg⟩
+  · exact ⟨by rw [deactivate_got]; exact hc.1, hg⟩
+end
+/-- a frame whose DID differs from the Target's is never answered and never changes what was delivered -/
+theorem tRx_mismatch (c : Cfg) (t : TState) (req : Pdu) (h : req.didAttr ≠ c.tdid) :
+    (tRx c t (.frame req)).2 = none ∧ (tRx c t (.frame req)).1.got = t.got := by
+  obtain ⟨pni, loc, depRes, tosend, got, status⟩ := t
+  by_cases hr : status = .running
+  · subst hr
+    cases loc <;> cases req <;> simp [tRx, tRx.tRxActive, h]
+  · simp [tRx, hr]
+
+theorem tRx_atn_got (c : Cfg) (t : TState) : (tRx c t (.frame (atnPdu c))).1.got = t.got := by
+  have key : ∀ did, (tRx c t (.frame (.dep fATN 0 did none []))).1.got = t.got := by
+    intro did
+    rcases tRx_atn_state c t did with h1 | ⟨_, h1⟩ <;> rw [h1]
+  rcases atn_cases c with h1 | h1 <;> rw [h1] <;> exact key _
+
+section
+variable (c : Cfg) (hne : c.tdid ≠ c.idid) (fuel : Nat)
+include hne
+
+theorem mismatchTX (g : List Bytes) (pni fmt rp : Nat) (data : Bytes) :
+    TXHyp (targetPeer c) c (fun t => t.got = g) (fun t => t.got = g) none pni (.dep fmt rp c.idid c.inad data) where
+  cor := fun _ => rfl
+  aAtn := fun t h => by show (tRx c t _).1.got = g; rw [tRx_atn_got]; exact h
+  aReq := fun t h => by
+    have := tRx_mismatch c t (.dep fmt rp c.idid c.inad data) (fun h' => hne h'.symm)
+    exact ⟨by show (tRx c t _).1.got = g; rw [this.2]; exact h, this.1⟩
+  bReq := fun t h => by
+    have := tRx_mismatch c t (.dep fmt rp c.idid c.inad data) (fun h' => hne h'.symm)
+    exact ⟨by show (tRx c t _).1.got = g; rw [this.2]; exact h, Or.inl this.1⟩
+  bNak := fun t h => by
+    have := tRx_mismatch c t (.dep fNAK pni c.idid c.inad []) (fun h' => hne h'.symm)
+    exact ⟨by show (tRx c t _).1.got = g; rw [this.2]; exact h, Or.inl this.1⟩
+  bAtn := fun t h => by show (tRx c t _).1.got = g; rw [tRx_atn_got]; exact h
+
+theorem transact_mismatch (g : List Bytes) (pni fmt : Nat) (data : Bytes) (a : Air TState) (h : a.peer.got = g) :
+    (transact (targetPeer c) c fuel pni a (.dep fmt pni c.idid c.inad data)).1.peer.got = g
+    ∧ ∀ res, (transact (targetPeer c) c fuel pni a (.dep fmt pni c.idid c.inad data)).2 ≠ .ok res := by
+  have hx := transact_tx (mismatchTX c hne g pni fmt pni data) (fun _ h => by cases h) fuel a h
+  rcases hx with ⟨h1, h2⟩ | ⟨h1, h2⟩
+  · exact ⟨h1, h2⟩
+  · exact ⟨h1, fun res hr => by cases h2 res hr⟩
+
+theorem exchange_mismatch (g : List Bytes) (a : Air TState) (pni : Nat) (p : Bytes) (h : a.peer.got = g) :
+    (exchange (targetPeer c) c fuel a pni p).1.peer.got = g
+    ∧ ∀ out, (exchange (targetPeer c) c fuel a pni p).2.2 ≠ .ok out := by
+  unfold exchange
+  split
+  · exact ⟨h, fun _ h => by cases h⟩
+  · have hs : (sendLoop (targetPeer c) c fuel fuel a pni p).1.peer.got = g
+        ∧ ∀ res, (sendLoop (targetPeer c) c fuel fuel a pni p).2.2 ≠ .ok res := by
+      cases fuel with
+      | zero => unfold sendLoop; exact ⟨h, fun _ h => by cases h⟩
+      | succ n =>
+        unfold sendLoop
+        dsimp only
+        have ht := transact_mismatch c hne (n+1) g pni
+          (if List.drop c.imiu p ≠ [] then fMORE else fINF) (List.take c.imiu p) a h
+        generalize transact (targetPeer c) c (n+1) pni a _ = r at ht ⊢
+        obtain ⟨a', u⟩ := r
+        cases u with
+        | error e => exact ⟨ht.1, fun _ h => by cases h⟩
+        | ok res => exact absurd rfl (ht.2 res)
+    generalize sendLoop (targetPeer c) c fuel fuel a pni p = r at hs ⊢
+    obtain ⟨a1, pni1, u⟩ := r
+    cases u with
+    | error e => exact ⟨hs.1, fun _ h => by cases h⟩
+    | ok res => exact absurd rfl (hs.2 res)
+
+theorem iApp_mismatch (g : List Bytes) : ∀ (rem : List Bytes) (a : Air TState) (pni : Nat) (gotI : List Bytes),
+    a.peer.got = g →
+    (iApp (targetPeer c) c fuel rem a pni gotI).1.peer.got = g ∧ (iApp (targetPeer c) c fuel rem a pni gotI).2.1 = gotI
+  | [], a, pni, gotI, h => by unfold iApp; exact ⟨h, rfl⟩
+  | p :: ps, a, pni, gotI, h => by
+    unfold iApp
+    have hx := exchange_mismatch c hne fuel g a pni p h
+    generalize exchange (targetPeer c) c fuel a pni p = r at hx ⊢
+    obtain ⟨a', pni', u⟩ := r
+    cases u with
+    | error e => exact ⟨hx.1, rfl⟩
+    | ok out => exact absurd rfl (hx.2 out)
+
+/-- different DIDs on the two sides: nothing is ever delivered -/
+theorem run_mismatch (script : List Fault) (rel : Nat) (pi pt : List Bytes) :
+    (run c fuel script rel pi pt).t.got = [] ∧ (run c fuel script rel pi pt).gotI = [] := by
+  have h := iApp_mismatch c hne fuel [] pi
+    { script := script, peer := TState.init pt, expired := false, wire := [] } 0 [] rfl
+  unfold run
+  dsimp only
+  generalize iApp (targetPeer c) c fuel pi _ 0 [] = r at h ⊢
+  obtain ⟨a1, got, err⟩ := r
+  dsimp only at h ⊢
+  split
   · exact h
   · exact ⟨by rw [deactivate_got]; exact h.1, h.2⟩
 end
+
+/-- **Exactly once, in order, intact**: for every configuration, fault script, fuel, release mode and
+payload lists, what `Target.exchange` returned is a prefix of what the Initiator passed in and vice versa. -/
+theorem run_prefix (c : Cfg) (fuel : Nat) (script : List Fault) (rel : Nat) (pi pt : List Bytes) :
+    (run c fuel script rel pi pt).t.got <+: pi ∧ (run c fuel script rel pi pt).gotI <+: pt := by
+  by_cases hdid : c.tdid = c.idid
+  · exact run_exactly_once c hdid fuel script rel pi pt
+  · have := run_mismatch c hdid fuel script rel pi pt
+    rw [this.1, this.2]; simp
 end NfcVerif.NfcDep
